@@ -16,6 +16,7 @@ func init() {
 	register(&Spec{
 		ID: "C02",
 		Explanation: "Decides the kind-order pipeline behind 'literal before interceptor before regexp before named, each alternative tried at most once, never widening an earlier capture': R1 the constant order String < Interceptor < Regexp < Named; R2 the sort key is K·kind + b with 0 ≤ b < K on every path (strictly monotone in the kind); R3 every append to a child list is followed by a stable sort of that node's child list whose comparator returns priority(a) − priority(b); R4 ordered scan — the matcher visits the first-byte index first, then children by an index that starts at len(index) and only increases by one, a failed child is left by moving to the next one; R5 the index holds literal children only and is coherent (= C03.R1/R2); R6 literal text next to a regexp parameter is quoted and the rule is enclosed in its own group (= C01.R3); R7 an alternative is given up by restoring the remaining path and falling back to the next child (= C01.R1). " +
+			"R19 (= C01.R21) no '{' in a rule; R20 (= C01.R22) end point = empty suffix. " +
 			"Not decided: shortest-capture and shared-suffix semantics of Segment.Match, longestPrefix splitting, and '404 exactly when the procedure finds no route' — those need an executable reference resolver (a different technique).",
 		Assumptions: commonAssumptions,
 		Run: func(c *Ctx) {
@@ -40,6 +41,8 @@ func init() {
 			ruleExhaustedPathPrefersTheNode(c, "R16")
 			ruleRegexpSplitOnRuneBoundary(c, "R17")
 			ruleInterceptorShorthands(c, "R18")
+			ruleRuleTextHasNoBraces(c, "R19")
+			ruleEndpointIsAnEmptySuffix(c, "R20")
 		},
 	})
 }
@@ -279,6 +282,15 @@ func ruleSortAfterInsert(c *Ctx, rule string) {
 	spec := &PairSpec{
 		Rule: rule,
 		IsA: func(f *ssa.Function, in ssa.Instruction) (string, string, bool) {
+			// an element replaced by another node (a split puts the new head where the old node stood): the new
+			// element may rank differently
+			if st, isSt := in.(*ssa.Store); isSt {
+				if ia, isIA := st.Addr.(*ssa.IndexAddr); isIA {
+					if b, isCh := fieldLoadOf(ia.X, a.NodeT, a.FChildren); isCh {
+						return b, "elem-store:" + a.FChildren, true
+					}
+				}
+			}
 			base, field, val, ok := fieldStore(in, a.NodeT)
 			if !ok || field != a.FChildren {
 				return "", "", false
